@@ -717,7 +717,7 @@ class Engine:
         if c.setup is not None:
             c.setup(self, st)
         for g, code in c.ghost_init.items():
-            st.env[g] = self.ev(ast.parse(code, mode='eval').body, st)
+            self.assign(ast.Name(id=g, ctx=ast.Store()), self.ev(ast.parse(code, mode='eval').body, st), st)
         self.entry_env = dict(st.env)
         if isinstance(st.env.get('self'), SRecord):
             self.entry_env['self'] = st.env['self'].clone()
@@ -977,6 +977,15 @@ class Engine:
         raise Undecided('statement not in the pyvc subset: %s (line %d)' % (type(node).__name__, node.lineno))
 
     def delete(self, t, st):
+        if isinstance(t, ast.Name):
+            if t.id not in st.env:
+                raise PyRaise(SExc('NameError'))
+            del st.env[t.id]  # a later read of the name is an unresolved name (SDotted), never the old value
+            return
+        if isinstance(t, (ast.Tuple, ast.List)):
+            for x in t.elts:
+                self.delete(x, st)
+            return
         raise Undecided('del not supported here: %s' % ast.unparse(t))
 
     def make_exc(self, node, st) -> SExc:
@@ -2166,6 +2175,8 @@ def _dotted(node) -> Optional[str]:
     if isinstance(node, ast.Attribute):
         b = _dotted(node.value)
         return None if b is None else b + '.' + node.attr
+    if isinstance(node, ast.Call) and isinstance(node.func, ast.Name) and node.func.id == 'super' and not node.args and not node.keywords:
+        return 'super()'
     return None
 
 
